@@ -232,7 +232,7 @@ static Value genNetw(vg::Rng &r) {
   Value tgt = Value::array(), str = Value::array();
   for (int i = 0; i < n; ++i) {
     tgt.push(r.in(-100, 100));
-    str.push(r.pick(std::vector<int>{1, 2, 4, 8}));   // strength x 4
+    str.push(r.pick(std::vector<int>{1, 2, 4, 8, 0, 0}));   // strength x 4 (zero: what the placer gives to zero-area cells)
   }
   v.set("n", n).set("nets", nets).set("model", r.in(0, 3)).set("tgt4", tgt).set("str4", str);
   v.set("tol", r.pick(std::vector<int>{6, 6, 4}));   // CG tolerance 1e-<tol>
